@@ -1088,6 +1088,14 @@ func report() {
 			break
 		}
 	}
+	if p := os.Getenv("C16_DUMP"); p != "" { // debugging aid: every group with its full detail
+		var sb strings.Builder
+		for _, k := range keys {
+			g := groups[k]
+			fmt.Fprintf(&sb, "===== %s target=%s at=%s %s (n=%d, family %s index %d)\nhex=%s\n%s\n\n", g.v.Class, g.v.T, g.v.At, g.v.Desc, g.count, g.v.F, g.v.I, trunc(g.v.Hex, 400), g.v.Detail)
+		}
+		os.WriteFile(p, []byte(sb.String()), 0644)
+	}
 	for _, k := range keys {
 		g := groups[k]
 		fmt.Printf("GROUP %-6s %-34s at=%-60s n=%-7d min: %s\n", g.v.Class, g.v.T, g.v.At, g.count, g.v.Desc)
